@@ -1,4 +1,4 @@
-(* From the finder's answer to the two rule sets: with the proposed repair, whenever find() returns two
+(* From the finder's answer to the two rule sets: for the code as it is (fix 97589e3), whenever find() returns two
    label maps, the specification-construction stage of EACH side (tree + SpecificationRuleExtractor
    invoked with that side's start label) does not fail and yields a closed rules dictionary with a rule
    for the start label — provided the universe handed to the finder is what ParallelInfo reads off the
